@@ -4,7 +4,8 @@ from props._wf_common import TRUSTED, DROPPED
 PROP, LEVEL, ENGINE = "C05", "other", "jxvc"
 DESIGN_REF = "DESIGN.md section 3 C05"
 TECHNIQUE = ("deductive, value-universal/shape-bounded: power-series mode on the real propagate_free (field average of the un-normalised walkers vs exp(-dt(H-ene0)) on the Fock space); "
-             "qr replaced by its algebraic contract for the norm / overlap bookkeeping; polynomial identity for the truncated exponential; EUF estimator formula of the block")
+             "qr replaced by its algebraic contract for the norm / overlap bookkeeping; polynomial identity for the truncated exponential; EUF estimator formula of the block"
+             " Plus all-sizes obligations (kind proof): tensor normal forms with SYMBOLIC sizes of the same traced functions (engine B-T, DESIGN 2.3b).")
 EXPLANATION = ("fp.step.series: the walkers handed to the re-orthonormalisation inside propagate_free (constants x Trotter propagator), averaged exactly over the fields, equal "
                "exp(-dt (H - ene0))|phi> at orders s^0..s^3, everything symbolic incl. an arbitrary rdm1, open shell (2,1). fp.norm / fp.overlap: with qr = (fresh Q, triangular R) the "
                "step stores Q, multiplies norms by det R_up det R_dn and stores overlap(Q) x norms, which by the covariance contract of C13 is the overlap of the un-normalised product; "
